@@ -199,6 +199,45 @@ func judgeC16(c *Ctx, sc *Scenario) *Violation {
 		c.Stats.Evaluations++
 		return judgeParse(c.H.Parsers, p.Kind, p.Input, p.Valid)
 	}
+	if p.Mode == "longline" {
+		w := sc.World
+		site, err := Materialise(w)
+		if err != nil {
+			return nil
+		}
+		defer site.Close()
+		var roots []string
+		for _, r := range w.AllRefs() {
+			roots = append(roots, r.OID)
+		}
+		ex := w.Expect(roots)
+		res := RunA(c.T, c.H, sc, site)
+		c.Stats.AddResult(res)
+		c.Stats.Evaluations++
+		c.Stats.Extra["long_listing_line_runs"]++
+		if res.Panic != "" {
+			return &Violation{"C16/long-listing-line-crash", firstLines(res.Panic, 8)}
+		}
+		if res.Hang {
+			return &Violation{"C16/long-listing-line-hang", ""}
+		}
+		if res.Failed {
+			return &Violation{"C16/long-listing-line-rejected", res.Err}
+		}
+		got, err := ParseJSONObject(res.Stdout)
+		if err != nil {
+			return &Violation{"C16/long-listing-line-bad-json", err.Error()}
+		}
+		if bad := ex.CompareV1(got, CensusFields); len(bad) > 0 {
+			return &Violation{"C16/long-listing-line-misread", strings.Join(bad, "; ")}
+		}
+		// the reader must ask cat-file --batch-check for exactly the listed objects
+		if len(res.Run.BatchCheckIn) != len(ex.Closure) {
+			return &Violation{"C16/long-listing-line-misread", fmt.Sprintf("%d ids sent to cat-file --batch-check, %d objects listed", len(res.Run.BatchCheckIn), len(ex.Closure))}
+		}
+		c.Stats.Nontrivial[sc.Hash()] = true
+		return nil
+	}
 	// truncate mode: every truncation point of the streams, exit status 0
 	w := sc.World
 	site, err := Materialise(w)
@@ -295,6 +334,37 @@ func checkC16(c *Ctx, rt *rapid.T) {
 		}
 		return
 	}
+	if g.Rare(1, 40, "longline") {
+		// listing lines of any length: `git rev-list --objects` prints the full
+		// path after the object id; the line reader must neither fail nor take
+		// bytes of a long path for another line
+		opts := DefaultGen
+		opts.MaxBlobs, opts.MaxTrees, opts.MaxCommits, opts.MaxTags, opts.MaxRefs = 3, 3, 3, 1, 3
+		opts.NameStyle = 0
+		w := GenWorld(g, opts)
+		blob := w.Add(NewObject(KBlob, []byte("long line\n")))
+		// the tail of the name looks like object ids of the world, so that a
+		// reader that resynchronises in the middle of a line finds "valid" ids
+		var ids []string
+		for _, o := range w.Objects {
+			ids = append(ids, o.ID)
+		}
+		l := g.PickInt([]int{4014, 4015, 4016, 4055, 4056, 4057, 8110, 8111, 8112, 8151, 8152, 8153, 8192, 12247, 16384, 40000, 65494, 65495, 70000}, "linelen")
+		var nb strings.Builder
+		for nb.Len() < l {
+			nb.WriteString(ids[nb.Len()%len(ids)])
+		}
+		name := nb.String()[:l]
+		tr := w.Add(NewObject(KTree, EncodeTree([]TreeEntry{{Mode: 0o100644, Name: name, OID: blob.ID}})))
+		cs := CommitSpec{Tree: tr.ID, Author: ident("A", 1500000000, "+0000"), Committer: ident("C", 1500000000, "+0000"), Message: "long line\n"}
+		co := w.Add(NewObject(KCommit, EncodeCommit(cs)))
+		w.Refs = append(w.Refs, Ref{Name: "refs/heads/longline", OID: co.ID})
+		sc := &Scenario{Format: 1, Property: "C16", Engine: "A", World: w, Inv: Invocation{Args: []string{"--json", "--names=none"}, Cwd: "top"}, Plan: GenPlan(g, false), Params: c16Params{Mode: "longline"}}
+		if v := judgeC16(c, sc); v != nil {
+			c.Fail(rt, sc, v.Class, v.Detail)
+		}
+		return
+	}
 	opts := DefaultGen
 	opts.NameStyle = 2
 	opts.LongNames = g.Chance(1, 4, "long")
@@ -382,7 +452,7 @@ func init() {
 		"reader loops of the three pipelines (truncation part)":                           "real code in engine A against simulated peers that stop after N bytes with exit status 0",
 	}
 	Register(&Prop{ID: "C16", Check: checkC16, Replay: judgeC16, Components: comp,
-		Rule: "(a) losslessness: every tree / commit / tag body of generated worlds (hostile and long names, gpgsig / mergetag / unknown multi-line headers, messages imitating headers, missing message or blank line) through the real parsers: re-serialised tree entries reproduce the object, tree / parents / object / type equal the model's own header-block parser, sizes equal the byte length; for-each-ref and cat-file header lines of the world parse to the model's values, 'missing' lines are errors; (b) totality under corruption faults of those valid bodies: bit flips, every truncation point (objects <= 400 bytes), splices, duplicated / removed lines, overwrites with NUL/LF/SP/0xff, random bytes - each call under recover with a 30 s watchdog; a panic, entries larger than the input or non-termination is a violation; (c) truncation points (40 evenly spaced offsets per stream in the quick tier, 400 in the thorough tier) of the four listing streams served with exit status 0 through the real reader loops: no crash, no hang. Coverage-guided fuzzing over all byte strings is a different technique and is not claimed. distinct by world hash"})
+		Rule: "(a) losslessness: every tree / commit / tag body of generated worlds (hostile and long names, gpgsig / mergetag / unknown multi-line headers, messages imitating headers, missing message or blank line) through the real parsers: re-serialised tree entries reproduce the object, tree / parents / object / type equal the model's own header-block parser, sizes equal the byte length; for-each-ref and cat-file header lines of the world parse to the model's values, 'missing' lines are errors; (b) totality under corruption faults of those valid bodies: bit flips, every truncation point (objects <= 400 bytes), splices, duplicated / removed lines, overwrites with NUL/LF/SP/0xff, random bytes - each call under recover with a 30 s watchdog; a panic, entries larger than the input or non-termination is a violation; (c) truncation points (40 evenly spaced offsets per stream in the quick tier, 400 in the thorough tier) of the four listing streams served with exit status 0 through the real reader loops: no crash, no hang. (d) listing lines of any length: rev-list lines of 4 014..70 000 bytes whose path consists of object ids of the world, through the real line reader: the run must succeed, the census be exact and exactly the listed ids be requested from cat-file --batch-check. Coverage-guided fuzzing over all byte strings is a different technique and is not claimed. distinct by world hash"})
 }
 
 func firstBytesStr(s string, n int) string {
